@@ -8,10 +8,13 @@
 //! tracking allocator.
 //! Part 3 (apatch.rs): patch entries inside archives (FLAG_PATCH_FILE + TPatchInfo) read through
 //! `PatchChain::read_file`.
+//! Part 4 (phist.rs): histories (add/remove/set-priority/clear/parallel add with reads in between) over
+//! archives that hold full versions *and* patch entries of the same names.
 mod apatch;
 mod bspatch;
 mod chain;
 mod pcase;
+mod phist;
 
 use bspatch as bp;
 use chain::{ChainCase, Op};
@@ -570,6 +573,16 @@ fn replay(check: &Check, spec: &Spec, p: &std::path::Path) {
                 check.fail(&f, c.clone());
             }
         }
+        "patch-history" => {
+            let case: phist::PhCase = serde_json::from_value(c["case"].clone()).expect("patch-history case");
+            let fails = match engine::guard("patch-history", || phist::run_case(check, &case, "replay")) {
+                Ok(f) => f,
+                Err(f) => vec![f],
+            };
+            for f in fails {
+                check.fail(&f, c.clone());
+            }
+        }
         k => {
             eprintln!("unknown replay kind {k:?}");
             std::process::exit(2)
@@ -593,7 +606,12 @@ fn main() {
          distinct = members × length class × operation kinds × flags. (2) patch files: base blobs 0–8 KiB (8 content classes) and COPY / BSD0 patches built from edit scripts of 0–8 control triples (copy+diff, insert, forward/backward/to-start/negative-zero seeks, copies running past the end of the base), \
          RLE-packed with varying token limits (runs at 127/128/129), both readings of the declared patch-data size; well-formed patches in process, altered patches (every header byte × {^1,^0x80,=0,=0xFF}, sampled/all payload bytes, boundary values in every outer and inner length field, ctrl-triple words, truncation, extension, changed base) in supervised workers with an allocation limit of max(64 MiB, 256 × input). \
          non-trivial = accepted patch with ≥2 control triples or a negative seek (altered: such a patch with a byte-changing alteration); distinct = type × size classes × triple count × seek kind × RLE style × outcome (altered: type × altered field × value class × outcome). \
-         (3) archive-level: base archive + 1–2 patch archives whose entries carry FLAG_PATCH_FILE + TPatchInfo (independent MPQ writer; single-unit raw/zlib and sectored zlib), read through PatchChain::read_file.",
+         (3) archive-level: base archive + 1–2 patch archives whose entries carry FLAG_PATCH_FILE + TPatchInfo (independent MPQ writer; single-unit raw/zlib and sectored zlib), read through PatchChain::read_file. \
+         (4) patch histories: 2–6 member archives that hold, for two names, nothing / a full version / a patch entry (COPY or BSD0, three storages) from content i to content j of a small content table, \
+         and histories of Add/Remove/SetPriority/Clear/add_archives_parallel with a per-operation read flag (reads between the operations); every read is judged from the present member set (full winner: its bytes; patch winner: error, or the declared content \
+         and then derivable from a present full version through present patch entries) and compared with a chain freshly built from the same members (sequential ascending, insertion order, from_archives_parallel). Deterministic grid: 16 templates (base removed / replaced, \
+         intermediate patch removed, order below the winner changed, clear, error-then-base-added, parallel re-add, ties …) × 3 universes × 2 read masks; bounded-exhaustive: every sequence of ≤3 (thorough ≤4) letters from 13 operations after loading base + 2 patches and reading once; \
+         random: free and coherent (lineage) universes, 3–14 operations. non-trivial = a patch entry stays the winner between two reads while the holders around it change; distinct = members × length × operation kinds × read mask × patch types × which of the three change classes × outcomes.",
     );
     check.assume("member archives carry a complete (listfile) (documented precondition of the chain's index); a case whose member archive is not healthy on its own is discarded and counted");
     check.assume("adding a path that is already a member is outside the statement: such an Add is not executed (counted as chain_ops_not_executed_duplicate_add)");
@@ -721,6 +739,9 @@ fn main() {
 
     // ---- part 3: patch entries inside archives
     apatch::run_all(&check);
+
+    // ---- part 4: histories over archives with patch entries
+    phist::run_all(&check);
 
     check.finish();
 }
